@@ -34,7 +34,7 @@ def run(c):
                    null_edits=st.get("null_edits", 0), b_see_pairs=st.get("b_see_pairs", 0),
                    fen_roundtrips=st.get("fen_roundtrips", 0), serialize_roundtrips=st.get("serialize_roundtrips", 0),
                    rule_equal_pairs_checked=st.get("rule_equal_pairs", 0),
-                   max_queens_one_side=st.get("max_queens_one_side", 0),
+                   max_queens_one_side=st.get("max_queens_one_side", 0), walks_high_halfmove_clock=st.get("walks_high_halfmove_clock", 0), max_halfmove_clock=st.get("max_halfmove_clock", 0),
                    walks_with_6plus_queens=st.get("walks_with_6plus_queens", 0),
                    walks_with_6plus_black_queens=st.get("walks_with_6plus_black_queens", 0),
                    asan_states=sum(r.stats.get("states", 0) for r in res[shards:]), exhaustive=False)
